@@ -5,6 +5,7 @@
 import Gts.Lemmas.Delete
 import Gts.Model.Seq
 import Gts.Model.GbSlice
+import Gts.Model.GbSliceRec
 import Gts.Lemmas.Bounds
 import Gts.Lemmas.Window
 import Gts.Lemmas.SliceWrap
@@ -192,10 +193,40 @@ theorem expand_del_marks_full_refuted :
   revert this
   decide
 
+/-- THE PROPERTY'S CLAUSE "an end whose residues were cut off becomes partial", 5' end, with exactly its own
+hypothesis — the first residue read by `l` was removed and something of `l` survives — and NO guard on the shape
+(`outer5Kept` is not assumed; `expandMarkAbs = false` is): false on the model and on the code, known finding K3M.
+Witness `join(1..3,6..8)` minus `[0, 3)` = `join(0^1,3..5)`: the 5' residues `1..3` were cut off, residues `6..8`
+survive, and the result carries no `<`.  The refutation is about the clause, not about a guard: what
+`expand_del_marks5_partial` / `3_partial` prove is the clause for locations whose first (last) residue-bearing leaf
+is a range that KEEPS a residue (`outer5Kept` / `outer3Kept`); a first / last part lying wholly inside the removed
+span — "a feature straddling either edge", "a join whose middle part vanishes" of the quantifier — is outside them. -/
+theorem expand_del_marks5_cut_full_refuted :
+    ¬ (∀ (l : Loc) (i k : Int), wf l = true → 0 < k → expandMarkAbs l i (-k) = false →
+        remAt i k (den l).head? = true → den (expand l i (-k)) ≠ [] →
+        (outerMarks (expand l i (-k))).1 = true) := by
+  intro h
+  have := h (joined [ranged 0 3 false false, ranged 5 8 false false]) 0 3 (by decide) (by decide) (by decide)
+    (by decide) (by decide)
+  revert this
+  decide
+
+/-- … and the 3' end: `join(1..3,6..8)` minus `[5, 8)` = `join(1..3,5^6)`, no `>` -/
+theorem expand_del_marks3_cut_full_refuted :
+    ¬ (∀ (l : Loc) (i k : Int), wf l = true → 0 < k → expandMarkAbs l i (-k) = false →
+        remAt i k (den l).getLast? = true → den (expand l i (-k)) ≠ [] →
+        (outerMarks (expand l i (-k))).2 = true) := by
+  intro h
+  have := h (joined [ranged 0 3 false false, ranged 5 8 false false]) 5 3 (by decide) (by decide) (by decide)
+    (by decide) (by decide)
+  revert this
+  decide
+
 /-- **an end whose residues were cut off becomes partial (5' end)**: for every well-formed
 location of any kind, arity, nesting and strand, if the first residue-bearing leaf in reading
-order is a range that keeps at least one residue (`outer5Kept`, the oracle's own applicability
-test), then after deleting `[i, i+k)` the 5' marker is set iff it was set before or the first
+order is a range that keeps at least one residue (guard `outer5Kept` — it excludes a first part lying
+wholly inside the removed span, for which the property's clause FAILS: `expand_del_marks5_cut_full_refuted`,
+known finding K3M), then after deleting `[i, i+k)` the 5' marker is set iff it was set before or the first
 residue read by `l` (the head of `den l`) was among the removed ones.  Guard: no marker-moving
 rule of `Push` fires in a `Join` of the evaluation (`expandMarkAbs`). -/
 theorem expand_del_marks5_partial (l : Loc) (i k : Int) (hw : wf l = true) (hk : 0 < k)
@@ -203,7 +234,8 @@ theorem expand_del_marks5_partial (l : Loc) (i k : Int) (hw : wf l = true) (hk :
     (outerMarks (expand l i (-k))).1 = ((outerMarks l).1 || remAt i k (den l).head?) :=
   (expand_del_outer l i k hw hk hg).1 h5
 
-/-- **… (3' end)**: if the last residue-bearing leaf is a range that keeps a residue, the 3'
+/-- **… (3' end)**: if the last residue-bearing leaf is a range that keeps a residue (guard `outer3Kept`;
+outside it `expand_del_marks3_cut_full_refuted`, K3M), the 3'
 marker is set afterwards iff it was set or the last residue read by `l` was removed. -/
 theorem expand_del_marks3_partial (l : Loc) (i k : Int) (hw : wf l = true) (hk : 0 < k)
     (hg : expandMarkAbs l i (-k) = false) (h3 : outer3Kept l i k = true) :
@@ -597,6 +629,100 @@ theorem slice_wrap_feature_count (s : Seq) (a b : Int) (hb : 0 ≤ b) (hba : b <
   rw [((C04.rotate_table_perm s (-a)).filter _).length_eq, List.filter_map, List.length_map]
   rfl
 
+/-! ### the full-length feature (`source 1..L`) under a wrap-around window
+
+`normOk` keeps the whole-sequence range out of every `slice_wrap_*_partial` theorem above (it fails for
+every rotation amount, see `C04.rotate_full_length`).  What the code does with it: the rotation leaves it
+`[0, L)` (C04), the forward cut `[0, W)`, `W = L - a + b`, clips it to the whole window. -/
+
+/-- the forward cut `Expand(W, W-L)`, `Expand(0, -0)` of the whole-sequence range is the whole window
+`[0, W)`, the 5' marker kept, the 3' marker set (`0 < W < L`) -/
+theorem cut_full_length (p5 p3 : Bool) (W L : Int) (h0 : 0 < W) (hWL : W < L) :
+    ((ranged 0 L p5 p3).expand W (W - L)).expand 0 (-0) = ranged 0 W p5 true := by
+  have hn : ¬ (W - L = 0) := by omega
+  have f1 : ¬ (W - L < 0 ∧ W ≤ 0 ∧ 0 < W - (W - L)) := by omega
+  have t2 : (W - L < 0 ∧ W < L ∧ L ≤ W - (W - L)) := by omega
+  have c1 : ¬ ((0 ≤ W - L ∧ W ≤ 0) ∨ (W - L < 0 ∧ W < 0)) := by omega
+  have c2 : (0 ≤ W - L ∧ W < L) ∨ (W - L < 0 ∧ W ≤ L) := by omega
+  have g2 : gmax W (L + (W - L)) = W := by unfold gmax; split <;> omega
+  simp only [expand, rangedExpand, if_neg hn, if_neg f1, if_pos t2, if_neg c1, if_pos c2, g2]
+  rw [if_neg (by omega)]
+  simp [expand, rangedExpand]
+
+/-- **Slice (wrap-around window), the full-length feature**: with `0 ≤ b < a ≤ L` and a non-empty window
+(`W = L - a + b > 0`) a feature whose location is the whole-sequence range (either strand) is a feature of
+the slice, with unchanged key and qualifiers, located at the WHOLE window `[0, W)` (same strand): `source`
+(the case of every GenBank record) completed — no partial marker; any other key with its 5' marker kept and
+the 3' marker set.  No K2 / `normOk` guard.  So the new location denotes exactly the residues of the window
+(the same SET as the feature's former residues inside `[a,L) ++ [0,b)` at `(x - a) mod L`), read from
+window position 0: the reading start is lost as in `C04.rotate_full_length_same_set`, and for a non-`source`
+full-length feature the marker goes to the 3' end whichever residues were cut (with `b = 0` the residues cut
+off, `[0, a)`, are the 5' ones of the original reading) — a consequence of "a full-length feature stays
+full-length" in the rotation step, noted here, not a recorded finding. -/
+theorem slice_wrap_full_length_feature (s : Seq) (a b : Int) (hb : 0 ≤ b) (hba : b < a) (haL : a ≤ s.len)
+    (hW : 0 < s.len - a + b) (f : Feature) (hf : f ∈ s.feats) (p5 p3 : Bool)
+    (hloc : f.loc = ranged 0 s.len p5 p3 ∨ f.loc = compl (ranged 0 s.len p5 p3)) :
+    ∃ f' ∈ (s.slice a b).feats, f'.key = f.key ∧ f'.props = f.props ∧
+      f'.loc = (if f.key = "source" then Loc.asComplete else id)
+        (match f.loc with
+          | compl _ => compl (ranged 0 (s.len - a + b) p5 true)
+          | _ => ranged 0 (s.len - a + b) p5 true) := by
+  have hL : 0 < s.len := by omega
+  have hfl : C04.fullLength s.len f.loc = true := by
+    rcases hloc with h | h <;> rw [h] <;> simp [C04.fullLength]
+  have hm := C04.rotate_full_length_feature s (-a) hL f hf hfl
+  rw [slice_wrap_eq s a b (by omega) hb hba]
+  unfold Seq.sliceFwd
+  have hlen := rotate_len s (-a) hL
+  have hcut := cut_full_length p5 p3 (s.len - a + b) s.len hW (by omega)
+  have ro : rangeOverlap 0 s.len 0 (s.len - a + b) = true := by
+    unfold rangeOverlap
+    rw [if_neg (by omega), if_neg (by omega)]
+    simp only [Bool.and_eq_true, decide_eq_true_eq]; omega
+  have hov : f.loc.overlap 0 (s.len - a + b) = true := by
+    rcases hloc with h | h <;> rw [h] <;> simp only [overlap] <;> exact ro
+  refine ⟨_, List.mem_map_of_mem (List.mem_filter.mpr ⟨hm, hov⟩), rfl, rfl, ?_⟩
+  simp only [hlen]
+  rcases hloc with h | h
+  · rw [h, hcut]; by_cases hs : f.key = "source" <;> simp [hs]
+  · have hcut' : ((compl (ranged 0 s.len p5 p3)).expand (s.len - a + b) (s.len - a + b - s.len)).expand 0 (-0)
+        = compl (ranged 0 (s.len - a + b) p5 true) := by
+      show compl (((ranged 0 s.len p5 p3).expand (s.len - a + b) (s.len - a + b - s.len)).expand 0 (-0)) = _
+      rw [hcut]
+    rw [h, hcut']; by_cases hs : f.key = "source" <;> simp [hs]
+
+/-- non-vacuity: `source 1..10` and a complement-strand full-length `misc_feature`, window `Slice(seq, 8, 4)` -/
+example :
+    let s : Seq := ⟨[⟨"source", ranged 0 10 false false, []⟩, ⟨"misc_feature", compl (ranged 0 10 true false), []⟩],
+      [97, 99, 103, 116, 97, 99, 103, 116, 97, 99]⟩
+    (0 : Int) ≤ 4 ∧ (4 : Int) < 8 ∧ 8 ≤ s.len ∧ 0 < s.len - 8 + 4 ∧
+    normOk s.len (expand (ranged 0 10 false false) 0 (C04.rotN (-8) s.len)) = false ∧
+    (s.slice 8 4).feats.map (fun f => (f.key, f.loc.den.map (·.1))) =
+      [("source", [0, 1, 2, 3, 4, 5]), ("misc_feature", [5, 4, 3, 2, 1, 0])] := by decide
+
+/-- FULL STATEMENT of "no resulting location refers to a position outside the new sequence" for a WRAP-AROUND
+window without a proviso on ambiguous spans (false on the model and on the code; confirmed on the real code by
+`seq.slice … (A 6 9) … 8 4`, which answers `(A 6 1)`): an ambiguous span across the window START — `one-of(7.9)` on
+ten residues, window `Slice(seq, 8, 4)` = residues `9,10,1..4` — comes back INVERTED, `Ambiguous{6, 1}`, printed
+`7.1` on a six-residue record.  It is the rotation step's `Ambiguous.Normalize` (C04 `rotate_coords_full_refuted`;
+C04's quantifier carves the shape out: "ambiguous spans only when they do not cross the new origin"); C03's
+quantifier has no such carve-out, so by C03's words this is a violation — recorded here and in DESIGN §6 C03 as an
+OPEN item (no `known_findings.json` entry and no sequence-level generator for Ambiguous features yet: `genFeature`
+draws none). -/
+theorem slice_wrap_ambiguous_coords_full_refuted :
+    ¬ (∀ (s : Seq) (a b : Int), 0 ≤ b → b < a → a ≤ s.len →
+        (∀ f ∈ s.feats, wf f.loc = true ∧ coordsWithin f.loc s.len = true) →
+        ∀ f' ∈ (s.slice a b).feats, coordsWithin f'.loc (s.slice a b).len = true) := by
+  intro h
+  have := h ⟨[⟨"misc", ambiguous 6 9, []⟩], [97, 99, 103, 116, 97, 99, 103, 116, 97, 99]⟩ 8 4
+    (by decide) (by decide) (by decide) (by decide) ⟨"misc", ambiguous 6 1, []⟩
+    (by
+      have hs : (Seq.slice ⟨[⟨"misc", ambiguous 6 9, []⟩], [97, 99, 103, 116, 97, 99, 103, 116, 97, 99]⟩ 8 4).feats
+          = [⟨"misc", ambiguous 6 1, []⟩] := by rfl
+      rw [hs]; exact List.mem_singleton.mpr rfl)
+  revert this
+  decide
+
 /-- **negative indices, as the code treats them**: `Slice` first adds the length to a negative
 `start` / `end` (once); from `-L` upwards that is all the sign does -/
 theorem slice_neg_norm (s : Seq) (a b : Int) (ha : 0 ≤ Bridge.sliceNorm s.len a)
@@ -856,6 +982,154 @@ theorem gen_slice_unparsable_kept (gbf : Gen.GbFields.GenBankFields) (a b : Int)
     | nil => rfl
     | cons r l ih => simp [Bridge.renumberFrom, ih]
   exact this 0 _
+
+section RecordRefs
+open Gts.GenBank
+
+/-! ### REFERENCE ranges at the RECORD level: forward windows (holds) and wrap-around windows (known finding K3R)
+
+`GenBank.sliceHeader f L a b` (`Model/GbSliceRec.lean`) is the header `gts.Slice` gives a GenBank record of `L`
+residues.  The property's clause — "REFERENCE base ranges are clipped to the window, re-based, dropped when disjoint
+and renumbered consecutively", for "all windows (forward and wrap-around …)" — is stated against an independent
+specification: `referencesSpec pieces f`, where `pieces r` lists what is left of the range `r = [s, e)` in window
+coordinates. -/
+
+/-- forward window `[a, b)`: the intersection, counted from `a` -/
+def fwdPieces (a b : Int) (r : Int × Int) : List (Int × Int) :=
+  if gmax r.1 a < gmin r.2 b then [(gmax r.1 a - a, gmin r.2 b - a)] else []
+
+/-- wrap-around window `[a, L) ++ [0, b)`: the part of the range inside the tail `[a, L)` moves to `x - a`, the part
+inside the head `[0, b)` to `x + (L - a)` (together `x ↦ (x - a) mod L`, the map of the residues, `slice_wrap_map`);
+a range that runs across the origin of the record stays ONE range (its two pieces abut at window position `L - a`);
+otherwise the pieces are listed in window order; a range disjoint from the window leaves nothing (same function as
+`wrapRefSpec` of harness/props_c03_refs.go) -/
+def wrapPieces (L a b : Int) (r : Int × Int) : List (Int × Int) :=
+  let t := (gmax r.1 a, gmin r.2 L)
+  let h := (gmax r.1 0, gmin r.2 b)
+  if t.1 < t.2 then
+    if h.1 < h.2 then
+      if t.2 - a = h.1 + (L - a) then [(t.1 - a, h.2 + (L - a))]
+      else [(t.1 - a, t.2 - a), (h.1 + (L - a), h.2 + (L - a))]
+    else [(t.1 - a, t.2 - a)]
+  else if h.1 < h.2 then [(h.1 + (L - a), h.2 + (L - a))] else []
+
+/-- one reference info: unparsable = verbatim; no piece left = dropped; else the pieces, printed -/
+def refInfoSpec (pieces : Int × Int → List (Int × Int)) (pref info : Pars.Bytes) : Option Pars.Bytes :=
+  match parseRefInfo pref info with
+  | none => some info
+  | some rs => if (rs.flatMap pieces).isEmpty then none else some (fmtRanges pref (rs.flatMap pieces))
+
+/-- the references the clause prescribes: clipped / dropped as above, the kept ones renumbered `1..m` -/
+def referencesSpec (pieces : Int × Int → List (Int × Int)) (f : Fields) : List Reference :=
+  renumberRefs (f.references.filterMap fun r =>
+    (refInfoSpec pieces (counterWord f.molecule) r.info).map fun i => { r with info := i })
+
+/-- the code's `filter overlap; map clipRange` IS the intersection list, for proper ranges and a non-empty window -/
+theorem fwdPieces_eq (a b : Int) (hab : a < b) (rs : List (Int × Int)) (hp : ∀ r ∈ rs, r.1 < r.2) :
+    (rs.filter fun r => rangeOverlap r.1 r.2 a b).map (clipRange a b) = rs.flatMap (fwdPieces a b) := by
+  induction rs with
+  | nil => rfl
+  | cons r rs ih =>
+    have h1 := hp r (List.mem_cons_self ..)
+    have ih' := ih (fun x hx => hp x (List.mem_cons_of_mem _ hx))
+    have ho : rangeOverlap r.1 r.2 a b = (decide (r.1 < b) && decide (a < r.2)) := by
+      unfold rangeOverlap
+      rw [if_neg (by omega), if_neg (by omega)]
+    simp only [List.filter_cons, List.flatMap_cons, ho]
+    by_cases c : r.1 < b ∧ a < r.2
+    · have hlt : gmax r.1 a < gmin r.2 b := by unfold gmax gmin; split <;> split <;> omega
+      have hc : clipRange a b r = (gmax r.1 a - a, gmin r.2 b - a) := by
+        unfold clipRange gmax gmin
+        ext <;> simp only <;> split <;> split <;> omega
+      simp only [c.1, c.2, decide_true, Bool.and_self, if_true, List.map_cons, ih', fwdPieces, if_pos hlt, hc,
+        List.cons_append, List.nil_append]
+    · have hlt : ¬ (gmax r.1 a < gmin r.2 b) := by unfold gmax gmin; split <;> split <;> omega
+      have hd : (decide (r.1 < b) && decide (a < r.2)) = false := by
+        simp only [Bool.and_eq_false_iff, decide_eq_false_iff_not]; omega
+      simp only [hd, fwdPieces, if_neg hlt, List.nil_append, Bool.false_eq_true, if_false]
+      exact ih'
+
+/-- **REFERENCE ranges, forward window** (`0 ≤ a < b`): the clause "clipped to the window, re-based, dropped
+when disjoint, renumbered" HOLDS — the header of the slice carries exactly the references the
+independent statement `referencesSpec (fwdPieces a b)` prescribes: an unparsable info verbatim; a parsed one
+with, for each range, its intersection with `[a, b)` counted from `a` (`fwdPieces`; `clipRange_spec`,
+`clipRange_inside` say the same of the code's `clipRange` position by position), dropped when no range meets
+the window; numbers `1..m`. -/
+theorem slice_fwd_refs (f : Fields) (L a b : Int) (ha : 0 ≤ a) (hab : a < b) :
+    (sliceHeader f L a b).references = referencesSpec (fwdPieces a b) f := by
+  have hw : sliceWindow L a b = (a, b) := by
+    unfold sliceWindow sliceIndex
+    rw [if_neg (by omega), if_neg (by omega), if_neg (by omega)]
+  have hinfo : ∀ info, sliceRefInfo (counterWord f.molecule) a b info
+      = refInfoSpec (fwdPieces a b) (counterWord f.molecule) info := by
+    intro info
+    unfold sliceRefInfo refInfoSpec
+    cases hpr : parseRefInfo (counterWord f.molecule) info with
+    | none => rfl
+    | some rs =>
+      simp only
+      have hp := parseRefInfo_proper _ _ rs hpr
+      rw [← fwdPieces_eq a b hab rs hp]
+      by_cases hemp : (rs.filter fun r => rangeOverlap r.1 r.2 a b).isEmpty
+      · simp [hemp]
+      · simp [hemp]
+  simp only [sliceHeader, hw, Fields.slice, Fields.withTopology, sliceReferences, referencesSpec]
+  congr 1
+  have hfun : (fun r : Reference => (sliceRefInfo (counterWord f.molecule) a b r.info).map fun i => { r with info := i })
+      = (fun r : Reference => (refInfoSpec (fwdPieces a b) (counterWord f.molecule) r.info).map fun i => { r with info := i }) := by
+    funext r
+    congr 1
+    exact hinfo r.info
+  rw [hfun]
+
+/-- the witness of K3R: ten residues, `REFERENCE 1 (bases 9 to 10)`, `REFERENCE 2 (bases 5 to 6)`; window `Slice(seq, 8, 4)`
+= residues `9,10,1..4` -/
+def witF : Fields :=
+  { (default : Fields) with
+    molecule := [68, 78, 65]
+    references := [{ (default : Reference) with number := 1, info := [40, 98, 97, 115, 101, 115, 32, 57, 32, 116, 111, 32, 49, 48, 41] },
+                   { (default : Reference) with number := 2, info := [40, 98, 97, 115, 101, 115, 32, 53, 32, 116, 111, 32, 54, 41] }] }
+
+
+/-- what the model (and the code) answers at the witness: REFERENCE 1 `(bases 9 to 10)` — residues INSIDE the
+window — is dropped, REFERENCE 2 `(bases 5 to 6)` — residues OUTSIDE it — is kept, un-rebased, as number 1 -/
+theorem slice_wrap_refs_witness :
+    (sliceHeader witF 10 8 4).references.map (fun r => (r.number, r.info)) = [(1, [40, 98, 97, 115, 101, 115, 32, 53, 32, 116, 111, 32, 54, 41])] := by
+  decide +kernel
+
+/-- what the property's clause demands there -/
+theorem slice_wrap_refs_witness_spec :
+    (referencesSpec (wrapPieces 10 8 4) witF).map (fun r => (r.number, r.info)) = [(1, [40, 98, 97, 115, 101, 115, 32, 49, 32, 116, 111, 32, 50, 41])] := by
+  decide +kernel
+
+/-- FULL STATEMENT of the REFERENCE clause for a WRAP-AROUND window (false on the model and on the code: known
+finding K3R): "for every header and every window `0 ≤ b < a ≤ L` the references of the slice are the ranges clipped to
+the window `[a, L) ++ [0, b)`, re-based by `(x - a) mod L`, dropped when disjoint, renumbered".  `gts.Slice` rotates
+residues and table by `-a` but not the header (`GenBankFields` has no `Shift` / `Expand`), then clips the UN-rotated
+ranges against `[0, L - a + b)`.  Witness `witF`, window `(8, 4)`: `(bases 9 to 10)` — inside the window, new
+positions `1 to 2` — is DROPPED; `(bases 5 to 6)` — outside the window — is KEPT as `(bases 5 to 6)`.  Replayed on the
+real code by op `gb.slice` (witness of K3R in known_findings.json), flagged by oracle `c03RefsWrap`.
+The clause HOLDS for forward windows: `slice_fwd_refs`. -/
+theorem slice_wrap_refs_full_refuted :
+    ¬ (∀ (f : Fields) (L a b : Int), 0 ≤ b → b < a → a ≤ L →
+        (sliceHeader f L a b).references = referencesSpec (wrapPieces L a b) f) := by
+  intro h
+  have := h witF 10 8 4 (by decide) (by decide) (by decide)
+  have h2 := congrArg (List.map fun r => (r.number, r.info)) this
+  rw [slice_wrap_refs_witness, slice_wrap_refs_witness_spec] at h2
+  revert h2
+  decide
+
+/-- non-vacuity of `slice_fwd_refs`, and `wrapPieces` on the shapes the oracle names: a range inside the tail, one
+across the origin of the record (stays one range), one meeting both parts without the junction (two ranges, window
+order), one disjoint -/
+example : (0 : Int) ≤ 2 ∧ (2 : Int) < 8 ∧
+    (sliceHeader witF 10 2 8).references.map (fun r => r.number) = [1] ∧
+    wrapPieces 10 8 4 (8, 10) = [(0, 2)] ∧ wrapPieces 10 8 4 (6, 10) = [(0, 2)] ∧
+    wrapPieces 10 8 4 (0, 10) = [(0, 6)] ∧ wrapPieces 10 8 4 (2, 9) = [(0, 1), (4, 6)] ∧
+    wrapPieces 10 8 4 (4, 6) = [] := by decide +kernel
+
+end RecordRefs
 
 /-- non-vacuity: `(sites)` is no range list under the counter word `bases` -/
 example : parseRefInfo (Gen.GbSlice.moleculeCounter (Gen.GoStrings.wsLit "DNA")) (Gen.GoStrings.wsLit "(sites)") = none := by
